@@ -7,7 +7,7 @@ from checks.common import swarm, thread_label
 ID = 'C05'
 LEVEL = 'exploration'
 NEEDS = ('threads', 'aio')
-QUICK = dict(runs=16000, wall=80)
+QUICK = dict(runs=32000, wall=85)
 THOROUGH = dict(runs=800000, wall=1200)
 RULE = ('scenario = pipeline source -> [map|filter]* -> (buffer(m) | parmap(c, thread) | fifo_stream(cap)) [-> second such stage], '
         'sync or async flavour, m/c/cap in {1,2,3,8}, n<=10 elements, virtual service times; fault = consumer stop (break / close() / '
